@@ -162,6 +162,7 @@ package flamego
 //@   assert before Invoke#0: c.started <= len(c.handlers) && h == chainSlot(c, c.started)
 //@   assert before Invoke#0: lastselect() != 0
 //@   ghost before Invoke#0: c.started = c.started + 1
+//@   assert[C14] before handleReturn#0: handleReturn == rvIface(ev).(ReturnHandler) && ev == injValue(c.Injector, reflect.TypeOf(iface(type(ReturnHandler), nil)))
 //@   ensures ctxInv(c)
 //@   ensures ctxStep(old(ctxAligned(c)), old(c.started), old(c.responseWriter.isWritten), ctxAligned(c), c.started, c.responseWriter.isWritten)
 //@   ensures c.index > len(c.handlers) || c.responseWriter.isWritten || lastselect() == 0
@@ -428,3 +429,49 @@ package flamego
 //@ func Renderer$1
 //@   props C17
 //@   ensures result.Charset == ite(opts.Charset == "", "utf-8", opts.Charset) && result.JSONIndent == opts.JSONIndent && result.XMLIndent == opts.XMLIndent
+
+// ---------------------------------------------------------------------------
+// C14 Return values -> response (fixed table)
+// ---------------------------------------------------------------------------
+
+// reflect.Kind constants
+//@ define isBytesRV(v reflect.Value) bool = rvKind(v) == 23 && rtKind(rtElem(rvType(v))) == 8
+//@ define isErrRV(v reflect.Value) bool = rvValid(v) && implements(rvIface(v), type(error))
+// the value that decides the body
+//@ define respRV(vals []reflect.Value) reflect.Value =
+//@     ite(len(vals) == 1, vals[0],
+//@     ite(len(vals) == 2 && rvKind(vals[0]) == 2, vals[1],
+//@     ite(len(vals) == 2 && (rvKind(vals[0]) == 24 || isBytesRV(vals[0])), ite(implements(rvIface(vals[1]), type(error)), vals[1], vals[0]),
+//@         reflect.Value(nil))))
+//@ define hasIntStatus(vals []reflect.Value) bool = len(vals) == 2 && rvKind(vals[0]) == 2
+//@ define derefRV(v reflect.Value) reflect.Value = ite(rvKind(v) == 20 || rvKind(v) == 22, rvElem(v), v)
+// the writer the default return handler writes to: whatever the injector holds for http.ResponseWriter
+//@ define rhWriter(c Context) http.ResponseWriter =
+//@     rvIface(injValue(c, inject.InterfaceOf(iface(type(*http.ResponseWriter), nil)))).(http.ResponseWriter)
+
+//@ func defaultReturnHandler$3
+//@   props C14
+//@   skip typeassert panic@call:InterfaceOf
+//@   requires c != nil && rhWriter(c).hdrCount == 0
+//@   modifies rhWriter(c).hdrCount, rhWriter(c).firstStatus, rhWriter(c).bodyAtHdr, rhWriter(c).ctAtHdr, rhWriter(c).bodyBytes, rhWriter(c).lastWrite
+//@   ensures hasIntStatus(vals) ==> rhWriter(c).firstStatus == rvInt(vals[0]) && rhWriter(c).hdrCount >= 1
+//@   ensures isErrRV(respRV(vals)) ==> rhWriter(c).lastWrite == errText(rvIface(respRV(vals)).(error)) && rhWriter(c).hdrCount == ite(hasIntStatus(vals), 2, 1)
+//@   ensures isErrRV(respRV(vals)) && !hasIntStatus(vals) ==> rhWriter(c).firstStatus == 500
+//@   ensures !isErrRV(respRV(vals)) ==> rhWriter(c).hdrCount == ite(hasIntStatus(vals), 1, 0)
+//@   ensures !isErrRV(respRV(vals)) && (!rvValid(respRV(vals)) || rvZero(respRV(vals))) ==> rhWriter(c).bodyBytes == old(rhWriter(c).bodyBytes)
+//@   ensures !isErrRV(respRV(vals)) && rvValid(respRV(vals)) && !rvZero(respRV(vals)) ==>
+//@       rhWriter(c).lastWrite == ite(isBytesRV(derefRV(respRV(vals))), rvBytes(derefRV(respRV(vals))), rvString(derefRV(respRV(vals))))
+
+// the built-in fast path for func() (int, string) yields the same abstract values as a reflective call would
+//@ functype teapotInvoker() a, b
+//@   modifies *
+//@   panics true
+//@ func (teapotInvoker).Invoke
+//@   props C14 C04
+//@   requires invoke != nil
+//@   modifies *
+//@   panics true
+//@   ensures result1 == nil && len(result0) == 2
+//@   ensures result0[0] == reflect.ValueOf(iface(type(int), ret1)) && result0[1] == reflect.ValueOf(iface(type(string), ret2))
+//@ lemma[C14] teapotShape: forall n int, s string :: rvKind(reflect.ValueOf(iface(type(int), n))) == 2 && rvInt(reflect.ValueOf(iface(type(int), n))) == n &&
+//@     rvKind(reflect.ValueOf(iface(type(string), s))) == 24 && rvString(reflect.ValueOf(iface(type(string), s))) == s && rvValid(reflect.ValueOf(iface(type(string), s)))
